@@ -197,6 +197,13 @@ public:
     bool single = false;
     std::vector<Fail> single_fails;
     uint64_t single_outcome = 0;
+    struct SingleOut
+    {
+        int n;
+        char key[16][200];
+        char desc[16][1400];
+    };
+    SingleOut* single_out = nullptr;   // shared memory: failures survive the death of the replaying child
 
     template <class F>
     bool begin_case(const F& f)
@@ -247,6 +254,12 @@ public:
             f.key = key;
             f.desc = desc;
             single_fails.push_back(f);
+            if (single_out && single_out->n < 16)
+            {
+                strncpy(single_out->key[single_out->n], key.c_str(), 199);
+                strncpy(single_out->desc[single_out->n], desc.c_str(), 1399);
+                single_out->n++;
+            }
             return;
         }
         for (uint32_t i = 0; i < shm->nfail; ++i)
@@ -895,12 +908,7 @@ private:
     // executes replay_case(cs) in a forked child; collects failure keys
     void single_exec(const std::string& cs, std::vector<Fail>& got, bool& fatal, std::string& err)
     {
-        struct Out
-        {
-            int n;
-            char key[16][200];
-            char desc[16][1400];
-        };
+        using Out = W::SingleOut;
         auto o = static_cast<Out*>(mmap(nullptr, sizeof(Out), PROT_READ | PROT_WRITE, MAP_SHARED | MAP_ANONYMOUS, -1, 0));
         o->n = 0;
         char tmpl[] = "/dev/shm/verif-err-XXXXXX";
@@ -915,14 +923,8 @@ private:
                 dup2(fd, 2);
             W w;
             w.single = true;
+            w.single_out = o;
             replay_case(w, cs);
-            for (auto& f : w.single_fails)
-                if (o->n < 16)
-                {
-                    strncpy(o->key[o->n], f.key.c_str(), 199);
-                    strncpy(o->desc[o->n], f.desc.c_str(), 1399);
-                    o->n++;
-                }
             _exit(0);
         }
         int st = 0;
@@ -971,6 +973,14 @@ private:
         for (auto& g : got)
             if (g.key == f.key)
                 return "yes";
+        // Outcomes of a memory error (which redzone / mapping / garbage value is hit) depend on the heap
+        // layout, which differs between a long-running worker and a fresh replay process: if either run
+        // shows a sanitizer report the failure stands, with the difference recorded.
+        bool anyFatal = f.fatal;
+        for (auto& g : got)
+            anyFatal = anyFatal || g.fatal;
+        if (anyFatal)
+            return got.empty() ? "no (sanitizer outcome depends on heap layout; report text kept)" : "different-failure:" + got[0].key;
         // a timeout is re-run with x10 limit inside single_exec; if it now passes it was not a hang
         return "diverged";
     }
